@@ -293,6 +293,17 @@ def step (st : State) (w : List String) : State × String :=
       (st, s!"n=1 id={w.id} rcode={w.rcode} a={w.mark}")
     | _, _, _ => (st, "bad-op")
   | ["pool", "escape", _seed, _rounds] => (st, "unmodelled")
+  | ["upool", "read", toks] =>
+    -- every read draws one buffer and returns it exactly once; then four holders at a time
+    let tl := toks.splitOn ","
+    let res := tl.map fun t =>
+      let kind := (t.drop 1).take 1 |>.toString
+      let n := ((t.drop 2).toString.toNat?).getD 0
+      -- a stream frame of length 0 reads nothing more; fewer than 12 bytes is a short read; garbage does not unpack
+      if kind == "v" then "ok" else if n < 12 then "err" else "err"
+    let steps : List PoolStep := tl.flatMap (fun _ => [PoolStep.get, PoolStep.put 0]) ++ [.get, .get, .get, .get]
+    let p := ({} : ChainPool).run steps
+    (st, s!"{",".intercalate res} distinct={boolStr (p.held.eraseDups.length == p.held.length)}")
   | ["retain", "seq", _seed, kinds] =>
     -- every served request allocates its own reply; nothing served later touches it
     let kl := kinds.splitOn ","
